@@ -861,7 +861,7 @@ func main() {
 	}
 	r.Require("blk_join:tombstone_over_store_key", "blk_join:both", "blk_join:tombstone_only", "blk_join:mem_only", "blk_join:store_only",
 		"tx_join:tombstone_over_lower_key", "tx_join:both", "tx_join:tombstone_only", "tx_join:mem_only", "tx_join:lower_only",
-		"lifecycle:two_iterators_open", "lifecycle:scan_nonempty", "lifecycle:write_between_open_and_First_changes_scan",
+		"ff_prefix_worlds", "lifecycle:two_iterators_open", "lifecycle:scan_nonempty", "lifecycle:write_between_open_and_First_changes_scan",
 		"key_in_all_three_layers", "commit_tx_nonempty", "commit_blk_nonempty", "reset_tx_nonempty", "reset_blk_nonempty",
 		"backend_error_surfaced")
 	// resource bounds: thorough <= 8 workers / 8 GiB, quick all cores / 4 GiB
@@ -899,6 +899,9 @@ func main() {
 			"events_per_state": e.events, "depth_bound": e.depth, "states": e.st.States, "transitions": e.transitions, "per_depth": e.st.PerDepth,
 			"from_scratch_states_checked": e.scratchChecked, "from_scratch_up_to_depth": e.scratchMaxDepth, "states_beyond_from_scratch_depth": e.scratchSkipped})
 	}
+
+	// ---------------- phase F: prefixes ending in 0xff (see ffprefix.go)
+	r.Note("phaseF_ff_prefixes", ffPrefixPhase())
 
 	// ---------------- environment deviation (bound 1): the backing store fails reads
 	errCases := 0
